@@ -1234,8 +1234,12 @@ func belowErrorLineTactic(bc *boundsCtx, e ast.Expr, base ast.Expr, need needLen
 	}
 	// the base holds lines: split at "\n", or a parameter (the caller's lines)
 	isLines := isParamOf(bc.f.Root(), bv)
-	if d, ok := core.SingleDef(bc.info, bc.f.Root().Body, bv); ok {
-		if c := core.AsCall(bc.info, d.Rhs, "bytes.Split", "strings.Split"); c != nil && len(c.Args) == 2 {
+	if src, _ := core.Resolve(bc.info, bc.f.Root().Body, base); src != nil {
+		// looked through the parameter bindings of an inlined helper and other single-definition copies
+		if cv := core.VarOf(bc.info, src); cv != nil && isParamOf(bc.f.Root(), cv) {
+			isLines = true
+		}
+		if c := core.AsCall(bc.info, src, "bytes.Split", "strings.Split"); c != nil && len(c.Args) == 2 {
 			sep := ast.Unparen(c.Args[1])
 			if conv, isCall := sep.(*ast.CallExpr); isCall && len(conv.Args) == 1 {
 				if tv, isT := bc.info.Types[conv.Fun]; isT && tv.IsType() {
@@ -1252,6 +1256,26 @@ func belowErrorLineTactic(bc *boundsCtx, e ast.Expr, base ast.Expr, need needLen
 	}
 	lo, hasLo := bc.minStart(iv)
 	nonNeg := hasLo && lo >= 0
+	if !nonNeg {
+		// started at a value that is never negative (`max(l-10, 1)`) and only incremented
+		all := true
+		defs := core.DefsOf(bc.info, bc.f.Root().Body, iv)
+		for _, d := range defs {
+			switch d.Kind {
+			case "define", "var", "assign":
+				if d.Rhs == nil || d.Index >= 0 || !bc.nonNegExpr(d.Rhs, nil) {
+					all = false
+				}
+			case "incdec":
+				if d.Stmt.(*ast.IncDecStmt).Tok != token.INC {
+					all = false
+				}
+			default:
+				all = false
+			}
+		}
+		nonNeg = all && len(defs) > 0
+	}
 	isLine := func(x ast.Expr) bool {
 		x, _ = core.Resolve(bc.info, bc.f.Root().Body, x)
 		sel, ok := ast.Unparen(x).(*ast.SelectorExpr)
